@@ -208,18 +208,29 @@ def r_free(sh, rep):
         body = f["body"]
         lastst = body["stmts"][-1]
         tail = lastst["e"] if lastst["k"] == "ExprStmt" and not lastst["semi"] else None
-        ok_tail = tail is not None and tail["k"] == "Call" and call_name(tail) == "Err" and any(last(p) == err for p in paths_in(tail))
-        rep.check(ok_tail, "R11-FREE", fn + "#fallthrough-is-Err", sh.loc(D, f), "%s must end in Err(Error::%s(..)) when no scope binds the variable" % (fn, err))
-        # every Ok is inside an `if let Some(..) = scope.<lookup>`
+        LOOKUPS = ("get", "get_right", "get_left", "find_map", "find", "get_by_left", "get_by_right")
         oks = [n for n in walk(body) if n["k"] == "Call" and call_name(n) == "Ok"]
-        guarded = []
-        for n in walk(body):
-            if n["k"] == "If" and n["cond"]["k"] == "LetCond" and pat_head(n["cond"]["pat"]) == "Some" and any(c["k"] == "MethodCall" and c["m"] in ("get", "get_right") for c in calls_in(n["cond"]["e"])):
-                for x in walk(n["then"]):
-                    guarded.append(id(x))
-        rep.check(oks and all(id(o) in guarded for o in oks), "R11-FREE", fn + "#Ok-only-under-lookup", sh.loc(D, f), "%s returns Ok outside a successful `if let Some(..) = scope.get..` lookup" % fn, sample={"ok_returns": len(oks)})
-    gu = sh.nsrc(D, find_method(fd, "Converter", "get_unique")["body"])
-    rep.check(".checked_sub(index.inner()).ok_or(Error::FreeIndex(*index))?" in gu, "R11-FREE", "get_unique#checked_sub", D, "an index larger than the current level must become Err(FreeIndex), not an arithmetic underflow")
+        # form A: loop with `if let Some(..) = scope.<lookup>(..) { return Ok(..) }` and a final Err(Error::<err>)
+        form_a = tail is not None and tail["k"] == "Call" and call_name(tail) == "Err" and any(last(p) == err for p in paths_in(tail))
+        # form B: `<scopes>.…find_map(|s| s.<lookup>(..))….ok_or[_else](Error::<err>)` as the function's value: found -> Ok, not found -> Err
+        form_b = False
+        if tail is not None and tail["k"] == "MethodCall" and tail["m"] in ("ok_or", "ok_or_else") and any(last(p) == err for p in paths_in(tail["args"][0])):
+            chain = [c["m"] for c in walk(tail["recv"]) if c["k"] == "MethodCall"]
+            form_b = any(m_ in LOOKUPS for m_ in chain) and not any(m_ in ("unwrap", "unwrap_or", "unwrap_or_default", "unwrap_or_else", "expect", "or", "or_else") for m_ in chain) and not oks
+        rep.check(form_a or form_b, "R11-FREE", fn + "#fallthrough-is-Err", sh.loc(D, f), "%s must yield Err(Error::%s(..)) when no scope binds the variable: either a final `Err(..)` after the lookup loop, or a lookup chain closed by ok_or[_else](Error::%s(..)) with no defaulting combinator" % (fn, err, err), sample={"form": "loop" if form_a else "chain" if form_b else None})
+        if form_a:
+            guarded = []
+            for n in walk(body):
+                if n["k"] == "If" and n["cond"]["k"] == "LetCond" and pat_head(n["cond"]["pat"]) == "Some" and any(c["k"] == "MethodCall" and c["m"] in LOOKUPS for c in calls_in(n["cond"]["e"])):
+                    for x in walk(n["then"]):
+                        guarded.append(id(x))
+            rep.check(oks and all(id(o) in guarded for o in oks), "R11-FREE", fn + "#Ok-only-under-lookup", sh.loc(D, f), "%s returns Ok outside a successful `if let Some(..) = scope.get..` lookup" % fn, sample={"ok_returns": len(oks)})
+        else:
+            rep.check(form_b, "R11-FREE", fn + "#Ok-only-under-lookup", sh.loc(D, f), "%s: the only way to a value is through the lookup chain" % fn, sample={"ok_returns": len(oks)})
+    gf = find_method(fd, "Converter", "get_unique")
+    gu = sh.nsrc(D, gf["body"])
+    subs = [n for n in walk(gf["body"]) if n["k"] == "Binary" and n["op"] == "-"]
+    rep.check(re.search(r"\.checked_sub\([^()]*(\([^()]*\))?[^()]*\)\.ok_or(_else)?\((\|\|)?Error::FreeIndex\(", gu) is not None and not subs and "saturating_sub" not in gu and "wrapping_sub" not in gu, "R11-FREE", "get_unique#checked_sub", D, "an index larger than the current level must become Err(FreeIndex) through checked_sub(..).ok_or(Error::FreeIndex(..)), not an arithmetic underflow, wrap-around or clamp")
     # TryFrom impls: own Converter, `?`, no unwrap
     fa = sh.file(A)
     n = 0
